@@ -54,7 +54,7 @@ GUARD_CFG = "servlin_verif"
 SRC_DEPS = {
     "C01": ["src/head.rs"], "C02": ["src/head.rs"],
     "C03": ["src/content_type.rs", "src/request.rs", "src/headers.rs", "src/head.rs try_read"],
-    "C04": ["src/util.rs", "src/http_conn.rs"], "C05": ["src/util.rs", "src/http_conn.rs HttpConn.buf", "src/http_conn.rs state guards", "src/http_conn.rs write_response"],
+    "C04": ["src/util.rs", "src/http_conn.rs"], "C05": ["src/util.rs", "src/http_conn.rs HttpConn.buf", "src/http_conn.rs state guards", "src/http_conn.rs write_response", "src/http_conn.rs read_body"],
     "C06": ["src/util.rs", "src/content_type.rs", "src/response.rs write_http_response"], "C07": ["src/util.rs", "src/response.rs write_http_response"], "C08": ["src/util.rs", "src/http_conn.rs write_response", "src/http_conn.rs handle_http_conn", "src/response.rs write_http_response"],
     "C09": ["src/util.rs", "src/http_conn.rs"], "C10": ["src/util.rs", "src/http_conn.rs"],
     "C11": ["src/util.rs", "src/response.rs event_stream", "src/event.rs"],
